@@ -13,7 +13,7 @@ TARGET = dict(
                  "counting umem: exact-size areas, every reallocation moves, under ASan",
                  "executor udict, allocation-fault mode (15% of the cases; engine/faultmalloc.h): half of the operations run with their 1st..4th allocation refused; a set / dup / copy / alloc may then fail and leaves everything as it was, an import that fails leaves each attribute as it was or as the source has it, and whatever reports success has taken effect completely; otherwise every in-domain set/dup/copy/import must succeed"],
     execs=[dict(name="udict", harness="harness/C10_udict.c", repo=LIBUPIPE, engine=MEMFIX, fault_malloc=True, share=1.0),
-           dict(name="urefattr", harness="harness/C10_urefattr.c", repo=LIBUPIPE, engine=MEMFIX, share=1.0)],
+           dict(name="urefattr", harness="harness/C10_urefattr.c", repo=LIBUPIPE, engine=MEMFIX, fault_malloc=True, share=1.0)],
     quick=dict(cases=12000, budget=22), thorough=dict(cases=400000, budget=240),
 )
 META = dict(
